@@ -732,16 +732,17 @@ class SecopClient(ProxyClient):
 
     def readParameter(self, module, parameter):
         """forced read over connection"""
+        entry = None
         try:
-            self.request(READREQUEST, self.identifier[module, parameter])
+            entry = self.queue_request(READREQUEST, self.identifier[module, parameter])
+            self.get_reply(entry)
         except SECoPError as e:
-            result = self.cache[module, parameter]
-            if e == result.readerror:
-                # the update was already done in the rx thread
-                return result
-            # e was not originating from a secop error message e.g. a connection problem
-            # -> we have to do the error update
-            self.updateValue(module, parameter, None, time.time(), e)
+            if entry is None or entry[2] is None:
+                # e was not originating from a secop error message e.g. a connection problem
+                # -> we have to do the error update
+                self.updateValue(module, parameter, None, time.time(), e)
+            # else the update was already done in the rx thread. do not compare with the cache:
+            # a newer message might have been handled before this thread continues
         return self.cache.get((module, parameter), None)
 
     def getParameter(self, module, parameter, trycache=False):
